@@ -244,6 +244,29 @@ func TestC03(t *testing.T) {
 				return c03Deliver(e.app, ctx, &exchange.MsgCreateAskRequest{AskOrder: exchange.AskOrder{MarketId: e.marketID, Seller: a.String(),
 					Assets: sdk.NewCoin(d, assets), Price: sdk.NewInt64Coin("pricecoin", 10), SellerSettlementFlatFee: &feeCoin}})
 			}},
+		{name: "fill bids as the seller", class: "RSpend", kinds: []int{kBase, kContVesting},
+			run: func(e *c03Env, ctx sdk.Context, a, o sdk.AccAddress, d string, amt sdkmath.Int) error {
+				// the counterparty's bid (its price funds are held); the filler pays the assets from its own account
+				fund(e.t, e.app, ctx, o, sdk.NewCoins(sdk.NewInt64Coin("pricecoin", 10)))
+				id, err := e.app.ExchangeKeeper.CreateBidOrder(ctx, exchange.BidOrder{MarketId: e.marketID, Buyer: o.String(),
+					Assets: sdk.NewCoin(d, amt), Price: sdk.NewInt64Coin("pricecoin", 10)}, nil)
+				if err != nil {
+					e.t.Fatalf("counterparty bid: %v", err)
+				}
+				return c03Deliver(e.app, ctx, &exchange.MsgFillBidsRequest{Seller: a.String(), MarketId: e.marketID,
+					TotalAssets: sdk.NewCoins(sdk.NewCoin(d, amt)), BidOrderIds: []uint64{id}})
+			}},
+		{name: "fill asks as the buyer", class: "RSpend", kinds: []int{kBase, kDelayedVesting},
+			run: func(e *c03Env, ctx sdk.Context, a, o sdk.AccAddress, d string, amt sdkmath.Int) error {
+				fund(e.t, e.app, ctx, o, sdk.NewCoins(sdk.NewInt64Coin("assetcoin", 3)))
+				id, err := e.app.ExchangeKeeper.CreateAskOrder(ctx, exchange.AskOrder{MarketId: e.marketID, Seller: o.String(),
+					Assets: sdk.NewInt64Coin("assetcoin", 3), Price: sdk.NewCoin(d, amt)}, nil)
+				if err != nil {
+					e.t.Fatalf("counterparty ask: %v", err)
+				}
+				return c03Deliver(e.app, ctx, &exchange.MsgFillAsksRequest{Buyer: a.String(), MarketId: e.marketID,
+					TotalPrice: sdk.NewCoin(d, amt), AskOrderIds: []uint64{id}})
+			}},
 		{name: "new bid order", class: "RNewHold", kinds: []int{kBase, kDelayedVesting},
 			run: func(e *c03Env, ctx sdk.Context, a, o sdk.AccAddress, d string, amt sdkmath.Int) error {
 				return c03Deliver(e.app, ctx, &exchange.MsgCreateBidRequest{BidOrder: exchange.BidOrder{MarketId: e.marketID, Buyer: a.String(),
